@@ -953,3 +953,13 @@ VARIANTS['C05'] += [
     V('neutral: reference duration converted in two integer steps',
       [('dashlive/mpeg/dash/reference.py', "        return self.media_duration * timescale // self.timescale\n", "        scaled = self.media_duration * timescale\n        return scaled // self.timescale\n")], None),
 ]
+
+VARIANTS['C04'] += [
+    V('segment reference flushes the writer of the enclosing sidx box',
+      [('dashlive/mpeg/mp4.py', "    def encode(self, dest):\n        w = FieldWriter(self, dest)\n        w.writebits(1, 'ref_type')\n        w.writebits(31, 'ref_size')",
+        "    def encode(self, w):\n        w.writebits(1, 'ref_type', self.ref_type)\n        w.writebits(31, 'ref_size', self.ref_size)")],
+      'R04.7', 'SegmentReference.encode'),
+    V('neutral: segment reference names its writer differently',
+      [('dashlive/mpeg/mp4.py', "    def encode(self, dest):\n        w = FieldWriter(self, dest)\n        w.writebits(1, 'ref_type')\n        w.writebits(31, 'ref_size')\n        w.writebits(32, 'duration')\n        w.writebits(1, 'starts_with_SAP')\n        w.writebits(3, 'SAP_type')\n        w.writebits(28, 'SAP_delta_time')\n        w.done()",
+        "    def encode(self, dest):\n        bits = FieldWriter(self, dest)\n        bits.writebits(1, 'ref_type')\n        bits.writebits(31, 'ref_size')\n        bits.writebits(32, 'duration')\n        bits.writebits(1, 'starts_with_SAP')\n        bits.writebits(3, 'SAP_type')\n        bits.writebits(28, 'SAP_delta_time')\n        bits.done()")], None),
+]
